@@ -177,9 +177,25 @@ func Builders(thorough bool) []Builder {
 	// NACK
 	entryCounts := ints(thorough, []int{1, 2, 3, 7, 8, 9, 15, 16, 17, 31, 32, 63, 64, 65, 127, 128, 253},
 		[]int{1, 2, 3, 4, 5, 6, 7, 8, 9, 10, 14, 15, 16, 17, 18, 30, 31, 32, 33, 62, 63, 64, 65, 66, 126, 127, 128, 129, 130, 190, 191, 192, 193, 251, 252, 253})
+	// list sizes beyond one octet's worth (the header length field counts words in 16 bits; nothing in
+	// RFC 4585 limits a feedback list to 253 entries), up to the largest a length field can express
+	type nShape struct {
+		n   int
+		tag string
+	}
+	var listShapes []nShape
 	for _, n := range entryCounts {
-		n := n
-		add("TransportLayerNack", fmt.Sprintf("pairs=%d", n), func() rtcp.Packet {
+		listShapes = append(listShapes, nShape{n, ""})
+	}
+	for _, n := range ints(thorough, []int{254, 255, 256, 300}, []int{254, 255, 256, 257, 300, 511, 512, 1000}) {
+		listShapes = append(listShapes, nShape{n, ""})
+	}
+	for _, n := range []int{16381, 16382, 16383, 32766, 65533} {
+		listShapes = append(listShapes, nShape{n, "big:"})
+	}
+	for _, ls := range listShapes {
+		n, tag := ls.n, ls.tag
+		add("TransportLayerNack", fmt.Sprintf("%spairs=%d", tag, n), func() rtcp.Packet {
 			t := &tagger{}
 			p := &rtcp.TransportLayerNack{SenderSSRC: t.u32(), MediaSSRC: t.u32()}
 			for i := 0; i < n; i++ {
@@ -197,9 +213,9 @@ func Builders(thorough bool) []Builder {
 		return &rtcp.PictureLossIndication{SenderSSRC: t.u32(), MediaSSRC: t.u32()}
 	})
 	// SLI
-	for _, n := range entryCounts {
-		n := n
-		add("SliceLossIndication", fmt.Sprintf("entries=%d", n), func() rtcp.Packet {
+	for _, ls := range listShapes {
+		n, tag := ls.n, ls.tag
+		add("SliceLossIndication", fmt.Sprintf("%sentries=%d", tag, n), func() rtcp.Packet {
 			t := &tagger{}
 			p := &rtcp.SliceLossIndication{SenderSSRC: t.u32(), MediaSSRC: t.u32()}
 			for i := 0; i < n; i++ {
@@ -209,9 +225,12 @@ func Builders(thorough bool) []Builder {
 		})
 	}
 	// FIR
-	for _, n := range entryCounts {
-		n := n
-		add("FullIntraRequest", fmt.Sprintf("entries=%d", n), func() rtcp.Packet {
+	for _, ls := range listShapes {
+		n, tag := ls.n, ls.tag
+		if n > 32766 {
+			continue // 8 octets per entry: beyond the length field
+		}
+		add("FullIntraRequest", fmt.Sprintf("%sentries=%d", tag, n), func() rtcp.Packet {
 			t := &tagger{}
 			p := &rtcp.FullIntraRequest{SenderSSRC: t.u32(), MediaSSRC: t.u32()}
 			for i := 0; i < n; i++ {
@@ -333,6 +352,9 @@ func Builders(thorough bool) []Builder {
 						b[0] |= 0x20
 					}
 					b = append(b, t.bytes(4*words)...)
+					if pad && words >= 1 {
+						b[len(b)-1] = 4 // RFC 3550 6.4.1: with P set the last octet counts the padding octets
+					}
 					r := rtcp.RawPacket(b)
 					return &r
 				})
@@ -632,7 +654,7 @@ func Core(thorough bool, yield func(V) bool) {
 // (SSRCs, sources, timestamps) carry the SAME value — the tagged base keeps all
 // fields distinct, so duplicate list entries would otherwise never occur.
 func Aliased(b Builder, mine func() bool, yield func(V) bool) bool {
-	if b.Type == "CompoundPacket" || b.Type == "RawPacket" {
+	if b.Type == "CompoundPacket" || b.Type == "RawPacket" || strings.HasPrefix(b.Shape, "big:") {
 		return true
 	}
 	ls := Leaves(b.Make())
